@@ -217,5 +217,92 @@ theorem no_repeat_in_two {p : Pos} {mv₁ mv₂ : Mv} (h₁ : legal p mv₁ = tr
     | false => rfl
     | true => exact absurd (same_men h) (men_ne_after_two h₁ h₂)
 
+/-! ### cheap forms for evaluating concrete games (no enumeration of legal moves) -/
+
+theorem legalEpCaptures_ep_none {p : Pos} (h : p.ep = none) : legalEpCaptures p = [] := by
+  unfold legalEpCaptures
+  rw [List.filter_eq_nil_iff]
+  intro mv _
+  simp [isEnPassant, h]
+
+/-- `apply` without the enumeration when the move is not a double pawn push. -/
+def applyFast (p : Pos) (mv : Mv) : Pos := if isDoublePush p mv then apply p mv else applyCore p mv
+
+theorem apply_eq_fast (p : Pos) (mv : Mv) : apply p mv = applyFast p mv := by
+  unfold applyFast
+  split
+  · rfl
+  · rename_i h
+    have hep : (applyCore p mv).ep = none := by simp [applyCore, h]
+    simp only [Rules.apply]
+    split
+    · cases hq : applyCore p mv
+      rw [hq] at hep
+      simp_all
+    · rfl
+
+theorem legal_of_mem_legalMoves {p : Pos} {mv : Mv} (h : mv ∈ legalMoves p) : legal p mv = true := by
+  unfold legalMoves at h
+  simp only [List.mem_flatMap, List.mem_range] at h
+  obtain ⟨s, _, hs⟩ := h
+  split at hs
+  · simp only [List.mem_flatMap, List.mem_range, List.mem_filterMap] at hs
+    obtain ⟨d, _, q, _, hq⟩ := hs
+    split at hq
+    · rename_i hl
+      cases hq
+      exact hl
+    · cases hq
+  · cases hs
+
+/-- cheap sufficient test that no en-passant capture is possible: no target, or no pawn of the side
+    to move diagonally behind the target. -/
+def capsNil (p : Pos) : Bool :=
+  match p.ep with
+  | none => true
+  | some t => (List.range 64).all fun s =>
+      !(p.has s p.turn .pawn && (file t - file s).natAbs == 1 && rank t - rank s == up p.turn)
+
+theorem capsNil_sound {p : Pos} (h : capsNil p = true) : legalEpCaptures p = [] := by
+  unfold legalEpCaptures
+  rw [List.filter_eq_nil_iff]
+  intro mv hmv hep
+  have hl := legal_of_mem_legalMoves hmv
+  simp only [legal, Bool.and_eq_true] at hl
+  have hps := hl.1
+  simp only [isEnPassant, Bool.and_eq_true, beq_iff_eq, decide_eq_true_eq] at hep
+  obtain ⟨⟨⟨hpawn, hept⟩, hfile⟩, _⟩ := hep
+  unfold capsNil at h
+  rw [hept] at h
+  simp only [List.all_eq_true, List.mem_range] at h
+  unfold pseudoLegal at hps
+  simp only [Bool.and_eq_true, decide_eq_true_eq] at hps
+  obtain ⟨⟨hs, _⟩, hm⟩ := hps
+  have hat : p.at_ mv.src = some (p.turn, .pawn) := by
+    simpa [Pos.has] using hpawn
+  simp only [hat, Bool.and_eq_true, Bool.or_eq_true, beq_iff_eq] at hm
+  have hc := h mv.src hs
+  simp only [hpawn, Bool.true_and, Bool.not_eq_true', Bool.and_eq_false_iff, beq_eq_false_iff_ne] at hc
+  have hdf : file mv.dst - file mv.src ≠ 0 := by omega
+  rcases hm.2.2 with (⟨⟨h0, _⟩, _⟩ | h0) | h0
+  · exact hdf h0
+  · exact hdf h0.1.1.1.1
+  · rcases hc with hc | hc
+    · exact hc h0.1.1
+    · exact hc h0.1.2
+
+/-- `sameForRepetition` without the enumeration when neither position can have an en-passant capture. -/
+def sameFast (p q : Pos) : Bool :=
+  if capsNil p && capsNil q then p.men == q.men && p.turn == q.turn && p.rights == q.rights
+  else sameForRepetition p q
+
+theorem same_eq_fast (p q : Pos) : sameForRepetition p q = sameFast p q := by
+  unfold sameFast
+  split
+  · rename_i h
+    simp only [Bool.and_eq_true] at h
+    simp [sameForRepetition, capsNil_sound h.1, capsNil_sound h.2]
+  · rfl
+
 end Rules
 end ChessVerif
